@@ -30,7 +30,15 @@ import (
 // 10 hash functions and one inserted element, so an accidental match of the other push or of a txid has
 // probability (10/288000)^10).
 
-func factsPmt() []core.Fact { return nil }
+func factsPmt() []core.Fact {
+	m := wire.NewMsgMerkleBlock(&wire.BlockHeader{})
+	return []core.Fact{
+		{Name: "merkleBlockCommand", Value: m.Command()},
+		{Name: "merkleBlockMaxPayload", Value: int64(m.MaxPayloadLength(wire.ProtocolVersion))},
+		{Name: "bip0037Version", Value: int64(wire.BIP0037Version)},
+		{Name: "maxBlockPayload", Value: int64(wire.MaxBlockPayload)},
+	}
+}
 
 var pmtMarkMatch = []byte("C20-match-mark")
 var pmtMarkNo = []byte("C20-nomatch-mk")
@@ -203,6 +211,23 @@ func execPmt(f []string) string {
 				wireOK = wireOK && *back.Hashes[i] == *mb.Hashes[i]
 			}
 		}
+	}
+	// the message assembled through the public constructor and AddTxHash encodes to the same bytes
+	{
+		m2 := wire.NewMsgMerkleBlock(&mb.Header)
+		m2.Transactions = mb.Transactions
+		for _, h := range mb.Hashes {
+			if err := m2.AddTxHash(h); err != nil {
+				wireOK = false
+			}
+		}
+		m2.Flags = mb.Flags
+		var b2 bytes.Buffer
+		var b1 bytes.Buffer
+		e1 := mb.BtcEncode(&b1, wire.ProtocolVersion, wire.BaseEncoding)
+		e2 := m2.BtcEncode(&b2, wire.BIP0037Version, wire.WitnessEncoding)
+		wireOK = wireOK && e1 == nil && e2 == nil && bytes.Equal(b1.Bytes(), b2.Bytes()) &&
+			m2.Command() == "merkleblock" && mb.BtcEncode(&b2, wire.BIP0037Version-1, wire.BaseEncoding) != nil
 	}
 	if !wireOK {
 		return "err:wire"
